@@ -476,20 +476,33 @@ def run_deviations(ctx):
         _t.cleanup(res)
 
 
-def run(ctx, only=None):
+_GRAPHS = {}
+
+
+def _graph(ctx, tier):
+    """TLC run of one tier, cached within the process (a replay file holds several cases)."""
     from cuqiverif import tlc as _t
     from cuqiverif.core import MachineryError
-    tier = ctx.tier if only is None else "thorough"
-    res = ctx.tlc("SamplesOps", cfg="SamplesOps.%s.cfg" % tier, workers=16, timeout=1500, heap="8g")
-    ctx.model_must_hold(res, "SamplesOps")
-    graph = Graph(res.cases)
-    _t.cleanup(res)
-    if not graph.nodes or not graph.edges:
-        raise MachineryError("SamplesOps emitted no nodes / edges")
+    if tier not in _GRAPHS:
+        res = ctx.tlc("SamplesOps", cfg="SamplesOps.%s.cfg" % tier, workers=16, timeout=1500, heap="8g")
+        ctx.model_must_hold(res, "SamplesOps")
+        _GRAPHS[tier] = Graph(res.cases)
+        _t.cleanup(res)
+        if not _GRAPHS[tier].nodes or not _GRAPHS[tier].edges:
+            raise MachineryError("SamplesOps emitted no nodes / edges")
+    return _GRAPHS[tier]
+
+
+def run(ctx, only=None):
     if only is None:
+        graph = _graph(ctx, ctx.tier)
         run_deviations(ctx)
+    else:
+        graph = _graph(ctx, "quick")
+        if only not in graph.configs:
+            graph = _graph(ctx, "thorough")
     rng = random.Random(ctx.seed)
-    n_walks = 150 if ctx.tier == "quick" else 1500
+    n_walks = 150 if ctx.tier == "quick" or only is not None else 1500
     tot_e = tot_w = 0
     for ck in sorted(graph.configs):
         if only is not None and ck != only:
